@@ -79,7 +79,7 @@ class ExceptionRetryPolicy(RetryPolicy):
 
     def should_retry(self, attempt, future):
         exception = future.exception()
-        if not exception:
+        if exception is None:
             return False
         if attempt >= self._max_attempts:
             return False
@@ -459,13 +459,13 @@ class RetryExecutor(CanCustomizeBind, Executor):
 
 def copy_future(f1, f2):
     exception = f1.exception()
-    if exception:
+    if exception is not None:
         result = None
     else:
         result = f1.result()
 
     # OK, it won't be retried.  Resolve the future.
-    if exception:
+    if exception is not None:
         copy_future_exception(f1, f2)
     else:
         # f2 may have been cancelled concurrently; tolerate that just like
